@@ -10,7 +10,7 @@ ORACLES = ["c07walk"]
 def run(tier, seed):
     tasks = PC.make_tasks(tier, seed, ORACLES, layouts=["upper"], layout_depth=2, post="c07removal", include_noreq=True)
     results = pool.run_tasks("checks.parser_common:task", tasks)
-    results += pool.run_tasks("checks.parser_common:valid_task", PC.valid_tasks(tier, seed, ORACLES, post="c07removal", with_edits=False))
+    results += pool.run_tasks("checks.parser_common:valid_task", PC.valid_tasks(tier, seed, ORACLES, post="c07removal", with_edits=False, layouts=["rawcomments"]))
     cov, viols, harness = PC.assemble(results)
     cov["rule"] += (" C07: every accepted input is walked against the frozen extension table; every VALID word is re-run once per "
                     "extension it uses with that name removed from its require(s).")
